@@ -6,6 +6,8 @@
 //     that calls recover();
 //   - the expression the type switch of lt/lte/gt/gte looks at (`args[0]` = the unevaluated argument);
 //   - the statements of the default clause of evalArg's type switch (`val = arg`: literals by reference);
+//   - the last statement of the `[]any` clause of evalValue (`result = dupLiteral(tv)`: a list value of cond
+//     is a copy);
 //   - how many comparisons with a zero literal quotient() contains, `i == 0` aside (its float branches
 //     have none).
 //
@@ -330,6 +332,30 @@ func extractAsm(repo, out string) ([]string, error) {
 	} else {
 		return nil, fmt.Errorf("asm extractor: function evalArg not found")
 	}
+	// the last statement of the []any clause of evalValue (cond): what a list value that is not a call becomes
+	evalValueList := "none"
+	if fd := funcs["evalValue"]; fd != nil {
+		ast.Inspect(fd.Body, func(n ast.Node) bool {
+			ts, ok := n.(*ast.TypeSwitchStmt)
+			if !ok {
+				return true
+			}
+			for _, c := range ts.Body.List {
+				cc := c.(*ast.CaseClause)
+				if len(cc.List) == 1 && asmExprText(fset, cc.List[0]) == "[]any" && len(cc.Body) > 0 {
+					last := cc.Body[len(cc.Body)-1]
+					if _, isIf := last.(*ast.IfStmt); isIf {
+						evalValueList = "nothing" // falls out of the switch: result stays nil
+					} else {
+						evalValueList = asmExprText(fset, last)
+					}
+				}
+			}
+			return false
+		})
+	} else {
+		return nil, fmt.Errorf("asm extractor: function evalValue not found")
+	}
 	// zero tests in quotient
 	zeroTests := 0
 	if fd := funcs["quotient"]; fd != nil {
@@ -379,6 +405,8 @@ func extractAsm(repo, out string) ([]string, error) {
 	b.WriteString("]\n\n")
 	b.WriteString("/-- the default clause of evalArg's type switch -/\n")
 	fmt.Fprintf(&b, "def evalArgDefault : String := %s\n\n", asmLeanStr(evalArgDefault))
+	b.WriteString("/-- the last statement of the `[]any` clause of evalValue's type switch (`nothing`: only the if) -/\n")
+	fmt.Fprintf(&b, "def evalValueList : String := %s\n\n", asmLeanStr(evalValueList))
 	b.WriteString("/-- comparisons with a zero literal inside quotient() -/\n")
 	fmt.Fprintf(&b, "def quotientZeroTests : Nat := %d\n\n", zeroTests)
 	b.WriteString("end OjgVerif.Gen.AsmFacts\n")
